@@ -130,6 +130,15 @@ def scratch_root():
         base = os.environ.get("VERIF_SCRATCH")
         if not base:
             base = "/dev/shm" if os.path.isdir("/dev/shm") and os.access("/dev/shm", os.W_OK) else (os.environ.get("TMPDIR") or "/var/tmp")
+        # sweep scratch areas left behind by checks that were killed (their pid is gone)
+        try:
+            for name in os.listdir(base):
+                if name.startswith("nbdime-verif."):
+                    pid = name.rsplit(".", 1)[1]
+                    if pid.isdigit() and not os.path.exists("/proc/%s" % pid):
+                        shutil.rmtree(os.path.join(base, name), ignore_errors=True)
+        except OSError:
+            pass
         _SCRATCH_ROOT = os.path.join(base, "nbdime-verif.%d" % os.getpid())
         os.makedirs(_SCRATCH_ROOT, exist_ok=True)
     return _SCRATCH_ROOT
